@@ -81,6 +81,9 @@ def fromCty : GTy → Val → Option GVal
   | .slice t, .list _ _ xs => (fromCtyList t xs).map fun vs => .slice (some vs)
   | .map _, .null _ _ => some (.map none)
   | .map t, .map _ _ kvs => (fromCtyFields t kvs).map fun vs => .map (some vs)
+  -- a null of list / map type does not reset the pointer: gocty allocates it and stores the nil collection
+  | .ptr (.slice t), v => (fromCty (.slice t) v).map fun g => .ptr (some g)
+  | .ptr (.map t), v => (fromCty (.map t) v).map fun g => .ptr (some g)
   | .ptr _, .null _ _ => some (.ptr none)
   | .ptr t, v => (fromCty t v).map fun g => .ptr (some g)
   | _, _ => none
